@@ -122,6 +122,44 @@ func genConstPoint(r *kit.Rng, freq, per int64) (elapsed int64, hits uint64) {
 	return
 }
 
+// boundaryProbe: hit counts at which the deadline of the next hit crosses a word boundary.  For a
+// schedule reaching B hits' worth of nanoseconds at count c (constant pacer: (h+1)·Per/Freq = B) the
+// probe takes B in {2^63-1, 2^63, 2^64-1, 2^64} and hits = that count -1 ± 2, at elapsed 0, small, in
+// the middle or at the end of representable time.  Half of the probes pick Freq/Per near one hit per
+// nanosecond, where quotient and remainder of the 128-bit division both matter.
+func boundaryProbe(r *kit.Rng, freq, per int64) (f, p, elapsed int64, hits uint64, ok bool) {
+	f, p = freq, per
+	if f <= 0 || p <= 0 || r.Chance(0.5) {
+		p = r.Range(1, int64(1)<<uint(r.Pick(20)+1))
+		f = r.Range(p/4+1, 4*p)
+		if r.Chance(0.3) {
+			f = r.Range(1, 64)
+		}
+	}
+	b := new(big.Int).Lsh(big.NewInt(1), uint(63+r.Pick(2)))
+	if r.Chance(0.5) {
+		b.Sub(b, big.NewInt(1))
+	}
+	// count c with c·per/f ≈ B:  c = floor(B·f/per), and the neighbours
+	c := new(big.Int).Mul(b, big.NewInt(f))
+	c.Div(c, big.NewInt(p))
+	c.Add(c, big.NewInt(r.Range(-3, 2))) // hits = c-1 ± 2
+	if c.Sign() < 0 || !c.IsUint64() {
+		return f, p, 0, 0, false
+	}
+	switch r.Pick(4) {
+	case 0:
+		elapsed = 0
+	case 1:
+		elapsed = r.Range(0, 1000000)
+	case 2:
+		elapsed = r.Range(0, maxI64)
+	default:
+		elapsed = maxI64 - r.Range(0, 1000)
+	}
+	return f, p, elapsed, c.Uint64(), true
+}
+
 var sinePeriods = []int64{1000000, 10000000, 100000000, 1000000000, 10000000000, 60000000000, 600000000000, 3600000000000}
 var sineRatios = []float64{0, 0.1, 0.25, 0.5, 0.75, 0.9, 0.95, 0.99, 0.995, 0.999, 0.9999, 0.999999}
 var sineStarts = []float64{0, math.Pi / 2, math.Pi, 3 * math.Pi / 2}
@@ -285,9 +323,40 @@ func genLinearGuard(r *kit.Rng) *in {
 	default:
 		x.Hits = uint64(r.Range(1, 1<<uint(r.Pick(62)+1)))
 	}
-	if x.Hits == 0 {
+	if r.Chance(0.3) {
+		// around the count the schedule reaches at the end of representable time
+		hEnd, _ := newLinSched(x).Hf(maxI64)
+		if hEnd >= 0 && hEnd < 1e15 {
+			x.Hits = uint64(hEnd) + uint64(r.Range(0, 4)) - 2
+		}
+		x.Elapsed = r.PickI64([]int64{0, r.Range(0, 1000000), r.Range(0, maxI64), maxI64 - r.Range(0, 1000)})
+	}
+	if x.Hits == 0 || x.Hits > 1<<63 {
 		x.Hits = 1
 	}
+	return x
+}
+
+// genSineBoundary: a slow sine pacer probed at the counts its schedule reaches at the end of
+// representable time (where the next deadline stops fitting a time.Duration).
+func genSineBoundary(r *kit.Rng) *in {
+	x := &in{Pacer: "sine", Mode: "point"}
+	x.Period = r.PickI64([]int64{3600000000000, 86400000000000, 60000000000})
+	x.MeanPer = r.PickI64(units[3:]) * r.Range(1, 100000)
+	x.MeanFreq = r.Range(1, 5)
+	x.AmpPer = x.MeanPer
+	x.AmpFreq = r.PickI64([]int64{0, 1, -1, x.MeanFreq - 1})
+	if x.AmpFreq >= x.MeanFreq || -x.AmpFreq >= x.MeanFreq {
+		x.AmpFreq = 0
+	}
+	x.StartAtBits = math.Float64bits(sineStarts[r.Pick(len(sineStarts))])
+	x.setText()
+	hEnd := newSineSched(x).H(maxI64)
+	x.Hits = 1
+	if hEnd >= 2 && hEnd < 1e15 {
+		x.Hits = uint64(hEnd) + uint64(r.Range(0, 4)) - 2
+	}
+	x.Elapsed = r.PickI64([]int64{0, r.Range(0, 1000000), r.Range(0, maxI64), maxI64 - r.Range(0, 1000)})
 	return x
 }
 
